@@ -1623,8 +1623,10 @@ def _t_eval(target, _t, scope):
         elif op == '(':
             args, kwargs = arg
             scope[Path] += t_path[2:i+2:2]
+            # args and kwargs were evaluated above: what they hold now
+            # is data, even if it looks like a spec
             cur = scope[glom](
-                target, Call(cur, args, kwargs), scope)
+                target, Call(cur, Val(args), Val(kwargs)), scope)
             # call with target rather than cur,
             # because it is probably more intuitive
             # if args to the call "reset" their path
